@@ -83,3 +83,28 @@ Example od_kiwipete_nonquiet :   (* PV move e2a6 = 40 + 64 * 12 = 808, a capture
   | Some (out, l) => list_eqb (sort out) (sort l) && (hd 0 out =? 808) && (length out =? 8)%nat
   | None => false end = true.
 Proof. vm_compute. reflexivity. Qed.
+
+(** The evasion corner of movegen.go:283 (refill with evasion = false).
+    Black is in check; the evasion batch list is [e8f7 (3893); e8d8 (3899)], both king captures
+    (stage od3, the one stage without updateSortValues).  With PV move e8d8 the phased generator
+    hands out e8d8 first, then e8f7 from od3, skips the PV move as LAST move of od3 and refills
+    with evasion = false: the quiet pawn moves f4f3, f2f1R, g2g1R, f2f1B, g2g1B are handed out
+    although they do not evade the check.  The model reproduces the engine's exact sequence. *)
+Definition fen_refill : str := [51;66;107;51;47;49;75;51;82;49;98;47;50;81;53;47;54;80;98;47;51;80;49;112;50;47;80;50;80;50;110;49;47;53;112;112;49;47;52;113;51;32;98;32;45;32;45;32;52;32;51;56]. (* 3Bk3/1K3R1b/2Q5/6Pb/3P1p2/P2P2n1/5pp1/4q3 b - - 4 38 *)
+
+Example refill_corner_engine_sequence :
+  od_case_gp_ok fen_refill 14 3 true true 3899 3899 3893 [3899; 3893; 1877; 25413; 25478; 21317; 21382] = true /\
+  od_case_ok fen_refill 3 true true 3899 3899 3893 3899 [1877; 3893; 3899; 21317; 21382; 25413; 25478] = true.
+Proof. vm_compute. split; reflexivity. Qed.
+
+(* the batch evasion list has two moves only: the phased list is a strict superset, still
+   within the non-evasion list, and without duplicates (as od_chess_evasion states) *)
+Example refill_corner_batch :
+  match parse fen_refill with
+  | Some p => match gen_pseudo true (view_of_spec p) 3 true with Some l => sort l | None => [] end
+  | None => [] end = [3893; 3899].
+Proof. vm_compute. reflexivity. Qed.
+
+(* without a PV move the phased evasion drain equals the batch evasion list *)
+Example refill_corner_no_pv : od_case_gp_ok fen_refill 14 3 true true 0 0 0 [3893; 3899] = true.
+Proof. vm_compute. reflexivity. Qed.
